@@ -207,7 +207,7 @@ def run(ctx):
             for lp in loops:
                 for n_ in vp.cfg.nodes:
                     if n_.ast is not None and any(x is n_.ast for b in lp.ast.body for x in ast.walk(b)) and \
-                            any(d.name == k and d.kind == "assign" for d in defs_of_node(n_)) and vp.dominates(n_, a):
+                            any(d.name == k and d.kind in ("assign", "unpack") for d in defs_of_node(n_)) and vp.dominates(n_, a):
                         fresh = True
             ctx.check(fresh, "R13.4", pvl.qualname, "per-entry definition of `%s`" % k, loc(pvl, a.ast),
                       "the grouping key `%s` is not re-established in every iteration before the version is recorded: an entry "
